@@ -558,6 +558,55 @@ func c12GenReq(t *rapid.T, depth int, groups []string) map[string]any {
 	return r
 }
 
+// c12GenTieredReq: one requirement over from_nested, one nested member per group (sometimes wrapped once more).
+func c12GenTieredReq(t *rapid.T, groups []string) map[string]any {
+	var nested []any
+	for _, g := range groups {
+		leaf := map[string]any{"from": g}
+		switch rapid.SampledFrom([]string{"all", "all", "count", "min", "minmax"}).Draw(t, "tier.leaf") {
+		case "all":
+			leaf["rule"] = "all"
+		case "count":
+			leaf["rule"] = "pick"
+			leaf["count"] = rapid.SampledFrom([]int{2, 1, 3}).Draw(t, "tier.leaf.count")
+		case "min":
+			leaf["rule"] = "pick"
+			leaf["min"] = rapid.SampledFrom([]int{2, 1}).Draw(t, "tier.leaf.min")
+		case "minmax":
+			leaf["rule"] = "pick"
+			leaf["min"] = 1
+			leaf["max"] = rapid.SampledFrom([]int{2, 1, 3}).Draw(t, "tier.leaf.max")
+		}
+		if rapid.IntRange(0, 5).Draw(t, "tier.wrap") == 5 {
+			leaf = map[string]any{"rule": "all", "from_nested": []any{leaf}}
+		}
+		nested = append(nested, leaf)
+	}
+	n := len(groups)
+	top := map[string]any{"from_nested": nested}
+	switch rapid.SampledFrom([]string{"count", "count", "min", "minmax", "max", "all", "bare"}).Draw(t, "tier.top") {
+	case "count":
+		top["rule"] = "pick"
+		top["count"] = rapid.SampledFrom([]int{2, n, 1, n + 1}).Draw(t, "tier.top.count")
+	case "min":
+		top["rule"] = "pick"
+		top["min"] = rapid.SampledFrom([]int{2, n, 1}).Draw(t, "tier.top.min")
+	case "minmax":
+		top["rule"] = "pick"
+		lo := rapid.SampledFrom([]int{2, 1}).Draw(t, "tier.top.min")
+		top["min"] = lo
+		top["max"] = lo + rapid.IntRange(0, 1).Draw(t, "tier.top.max-min")
+	case "max":
+		top["rule"] = "pick"
+		top["max"] = rapid.SampledFrom([]int{2, 1, n}).Draw(t, "tier.top.max")
+	case "all":
+		top["rule"] = "all"
+	case "bare":
+		top["rule"] = "pick"
+	}
+	return top
+}
+
 func c12ReqGroups(r map[string]any, into map[string]bool) {
 	if f, ok := r["from"].(string); ok {
 		into[f] = true
@@ -572,10 +621,19 @@ func c12ReqGroups(r map[string]any, into map[string]bool) {
 func c12Gen(t *rapid.T) c12Case {
 	var c c12Case
 	// 1. base wallet
+	// "tiered" cases (1 in 5): 4-6 descriptors in 2-3 groups of >= 2, each aimed at its own credential, and one
+	// requirement over from_nested whose members are all/pick over those groups, with count/min/max >= 2 likely.
+	// This is the shape in which a bound over nested requirements differs from a bound over credentials.
+	tiered := rapid.IntRange(0, 4).Draw(t, "tiered") == 4
 	nBase := rapid.SampledFrom([]int{1, 1, 2, 2, 3, 3, 0}).Draw(t, "nBase")
 	// most cases are "friendly": descriptors are drawn so that their target satisfies them (a complete selection
 	// usually exists and the verifier side is reached); the rest draws filters and paths that are often just off
 	friendly := rapid.IntRange(0, 9).Draw(t, "friendly") < 6
+	spoiled := -1
+	if tiered {
+		nBase = rapid.IntRange(4, 6).Draw(t, "tiered.nBase")
+		friendly = true
+	}
 	for i := 0; i < nBase; i++ {
 		c.Wallet = append(c.Wallet, c12GenCred(t, i, "base"))
 	}
@@ -587,11 +645,24 @@ func c12Gen(t *rapid.T) c12Case {
 		def["name"] = "generated"
 		def["purpose"] = "verification"
 	}
-	if rapid.IntRange(0, 3).Draw(t, "defformat?") == 3 {
+	if !tiered && rapid.IntRange(0, 3).Draw(t, "defformat?") == 3 {
 		def["format"] = c12GenFormat(t, "defformat")
 	}
 	nDesc := rapid.IntRange(1, 4).Draw(t, "nDesc")
 	withReqs := rapid.Bool().Draw(t, "reqs?")
+	var tierGroups []string
+	if tiered {
+		nDesc = rapid.IntRange(4, 6).Draw(t, "tiered.nDesc")
+		withReqs = true
+		tierGroups = []string{"A", "B"}
+		if nDesc == 6 && rapid.Bool().Draw(t, "tiered.3groups") {
+			tierGroups = []string{"A", "B", "C"}
+		}
+		// now and then one descriptor cannot be satisfied, so that a nested requirement fails
+		if rapid.IntRange(0, 3).Draw(t, "tiered.spoil") == 3 {
+			spoiled = rapid.IntRange(0, nDesc-1).Draw(t, "tiered.spoiled")
+		}
+	}
 	var descs []any
 	var plans []c12DescPlan
 	usedGroups := map[string]bool{}
@@ -605,9 +676,12 @@ func c12Gen(t *rapid.T) c12Case {
 				plan.target = (plan.target + d) % len(c.Wallet)
 			}
 		}
+		if tiered {
+			plan.target = d % len(c.Wallet)
+		}
 		cons := map[string]any{}
 		nFields := rapid.SampledFrom([]int{0, 1, 1, 2, 2, 3}).Draw(t, "nFields")
-		if nFields > 0 || rapid.Bool().Draw(t, "emptyfields") {
+		if tiered || nFields > 0 || rapid.Bool().Draw(t, "emptyfields") {
 			fields := []any{}
 			for i := 0; i < nFields; i++ {
 				f, first := c12GenField(t, fmt.Sprintf("f%d_%d", d, i), c.Wallet, plan.target, friendly)
@@ -615,7 +689,14 @@ func c12Gen(t *rapid.T) c12Case {
 				plan.leaves = append(plan.leaves, first)
 			}
 			// discriminate by kind so that selections are mostly unambiguous
-			if plan.target >= 0 {
+			if tiered {
+				want := c.Wallet[plan.target].ID
+				if d == spoiled {
+					want = "urn:vc:none"
+				}
+				fields = append(fields, map[string]any{"path": []any{"$.id"}, "filter": map[string]any{"type": "string", "const": want}})
+				plan.leaves = append(plan.leaves, "")
+			} else if plan.target >= 0 {
 				switch rapid.SampledFrom([]string{"none", "kind", "kind", "kind-idx", "id"}).Draw(t, "discriminator") {
 				case "kind":
 					fields = append(fields, map[string]any{"path": []any{"$.type"}, "filter": map[string]any{"type": "string", "const": c.Wallet[plan.target].Kind}})
@@ -634,14 +715,16 @@ func c12Gen(t *rapid.T) c12Case {
 			cons["limit_disclosure"] = "preferred"
 		}
 		desc["constraints"] = cons
-		if rapid.IntRange(0, 3).Draw(t, "descformat?") == 3 {
+		if !tiered && rapid.IntRange(0, 3).Draw(t, "descformat?") == 3 {
 			desc["format"] = c12GenFormat(t, "descformat")
 		}
 		if rapid.IntRange(0, 4).Draw(t, "descmeta") == 4 {
 			desc["name"] = fmt.Sprintf("descriptor %d", d)
 			desc["purpose"] = "why not"
 		}
-		if withReqs && rapid.IntRange(0, 9).Draw(t, "grouped") < 9 {
+		if tiered {
+			desc["group"] = []any{tierGroups[d*len(tierGroups)/nDesc]}
+		} else if withReqs && rapid.IntRange(0, 9).Draw(t, "grouped") < 9 {
 			g := []any{rapid.SampledFrom(c12Groups).Draw(t, "group")}
 			if rapid.IntRange(0, 3).Draw(t, "group2?") == 3 {
 				g2 := rapid.SampledFrom(c12Groups).Draw(t, "group2")
@@ -660,7 +743,9 @@ func c12Gen(t *rapid.T) c12Case {
 		plans = append(plans, plan)
 	}
 	def["input_descriptors"] = descs
-	if withReqs {
+	if tiered {
+		def["submission_requirements"] = []any{c12GenTieredReq(t, tierGroups)}
+	} else if withReqs {
 		pool := make([]string, 0, 3)
 		for _, g := range c12Groups {
 			if usedGroups[g] {
